@@ -370,7 +370,29 @@ pub fn remove_blank_lines(src: &str) -> String {
 
 /// Delete every comment; a line that held only a comment disappears with it.
 pub fn remove_comments(src: &str, ast: &Program) -> String {
-    let toks = comment_tokens(src, ast);
+    remove_comments_where(src, ast, &|_, _| true)
+}
+
+/// The comments that stand directly before a closing bracket (only white space and other comments
+/// in between): the last thing inside their container.
+fn before_closing_bracket(src: &str, toks: &[CommentTok], t: &CommentTok) -> bool {
+    let mut i = t.end;
+    let b = src.as_bytes();
+    loop {
+        while i < b.len() && (b[i] as char).is_ascii_whitespace() {
+            i += 1;
+        }
+        match toks.iter().find(|u| u.pos == i) {
+            Some(u) => i = u.end,
+            None => break,
+        }
+    }
+    i < b.len() && matches!(b[i], b'}' | b']' | b')')
+}
+
+pub fn remove_comments_where(src: &str, ast: &Program, keep_out: &dyn Fn(&[CommentTok], &CommentTok) -> bool) -> String {
+    let all = comment_tokens(src, ast);
+    let toks: Vec<&CommentTok> = all.iter().filter(|t| keep_out(&all, t)).collect();
     let mut out = String::new();
     let mut last = 0;
     for t in toks {
@@ -484,27 +506,6 @@ pub fn classify(src: &str, v: &Verdict) -> String {
             if detail.contains("container terms are rendered by term_doc") {
                 return "spawn-of-container".into();
             }
-        }
-    }
-    if kind == "program-changed" || kind == "output-unparseable" {
-        let dbg = format!("{ast:?}");
-        if ["int", "bin", "ref"].iter().any(|n| dbg.contains(&format!("Identifier {{ name: \"{n}\", arguments: [] }}"))) {
-            return "type-parameter-named-like-primitive".into();
-        }
-    }
-    if kind != "comments-changed" && kind != "format-panics" {
-        let (several, multi) = super::astutil::hole_shapes(&ast);
-        if multi {
-            return "multiline-literal-inside-hole".into();
-        }
-        if several {
-            return "hole-with-several-steps".into();
-        }
-        let dbg = format!("{ast:?}");
-        if kind != "not-idempotent"
-            && (dbg.contains("match_pattern: Some(Type(SelfDefault") || dbg.contains("match_pattern: Some(Type(Identifier"))
-        {
-            return "type-pattern-binding-reads-as-alias".into();
         }
     }
     if kind == "comments-changed" {
@@ -622,6 +623,14 @@ pub fn classify(src: &str, v: &Verdict) -> String {
             return "resource-type-in-string-hole".into();
         }
     }
+    // a comment that is the last thing inside its brackets, while the enclosing step goes on after
+    // them (`{ e⏎//c⏎} R[2]`): the formatter hands it to the next node *outside* the brackets
+    if kind == "not-idempotent" {
+        let nl = remove_comments_where(src, &ast, &|all, t| before_closing_bracket(src, all, t));
+        if nl != src && !still(&nl) {
+            return "comment-before-closing-bracket".into();
+        }
+    }
     // trivia: which of {blank lines, comments} must go for this failure to disappear
     let nb = remove_blank_lines(src);
     let nc = remove_comments(src, &ast);
@@ -642,6 +651,32 @@ pub fn classify(src: &str, v: &Verdict) -> String {
     let cr = normalize_cr(src);
     if cr != src && !still(&cr) {
         return "carriage-return".into();
+    }
+    // Shape-based causes, only when nothing above explains the failure (they name a construct
+    // that is present, not a repair that was tried, so they come last and never hide a cause that
+    // a repair confirms).
+    if kind == "program-changed" || kind == "output-unparseable" {
+        let dbg = format!("{ast:?}");
+        if ["int", "bin", "ref"].iter().any(|n| dbg.contains(&format!("Identifier {{ name: \"{n}\", arguments: [] }}"))) {
+            return "type-parameter-named-like-primitive".into();
+        }
+    }
+    if kind == "program-changed" || kind == "output-unparseable" {
+        // a binding whose pattern is a bare type reference, and an output line that starts like an alias
+        let dbg = format!("{ast:?}");
+        if dbg.contains("match_pattern: Some(Type(") && formatted.as_ref().is_some_and(|o| o.lines().any(|l| l.starts_with('\'')))
+        {
+            return "type-pattern-binding-reads-as-alias".into();
+        }
+    }
+    if kind != "comments-changed" && kind != "format-panics" {
+        let (several, multi) = super::astutil::hole_shapes(&ast);
+        if multi {
+            return "multiline-literal-inside-hole".into();
+        }
+        if several {
+            return "hole-with-several-steps".into();
+        }
     }
     "unexplained".into()
 }
